@@ -100,6 +100,48 @@ func crossDeptScenarios(tier string) []clustermc.Scenario {
 	return wlScenarios(tier, menu, lay, qsets, []schedrun.Config{{}, {SaturationMultiplier: "1.5"}}, 4, 5)
 }
 
+// multiReclaimerScenarios: SEVERAL reclaimers (different leaf queues of one department) act in one
+// cycle against a department that is above its deserved quota by less than their joint demand.
+// What an earlier reclaimer of the cycle took must be visible to the later ones at every level of
+// the hierarchy (4-6 workloads of a 5-item menu).
+func multiReclaimerScenarios(tier string) []clustermc.Scenario {
+	menu := []wlItem{
+		{"run-g1-qc", world.WL{Queue: "qc", Pods: pods(1, shG1, world.StRunning, "n1")}},
+		{"pend-g1-qa", world.WL{Queue: "qa", Pods: pods(1, shG1, "", "")}},
+		{"pend-g1-qb", world.WL{Queue: "qb", Pods: pods(1, shG1, "", "")}},
+		{"pend-g1-np-qb", world.WL{Queue: "qb", PC: "p100", Pods: pods(1, shG1, "", "")}},
+		{"run-g1-qa", world.WL{Queue: "qa", Pods: pods(1, shG1, world.StRunning, "n1")}},
+	}
+	u := world.QUnlimited()
+	g := func(q float64) world.QRes { return world.QRes{Quota: q, Limit: -1, Weight: 1} }
+	mk := func(tag string, qs ...world.QueueOpt) queueSetup {
+		return queueSetup{tag, func(b *world.Builder) {
+			for _, q := range qs {
+				q.CPU, q.Mem = u, u
+				b.Queue(q)
+			}
+		}}
+	}
+	qsets := []queueSetup{
+		mk("multi-d1q2(qa1,qb1)-d2q1(qc1)", world.QueueOpt{Name: "d1", GPU: g(2)}, world.QueueOpt{Name: "d2", GPU: g(1)},
+			world.QueueOpt{Name: "qa", Parent: "d1", GPU: g(1)}, world.QueueOpt{Name: "qb", Parent: "d1", GPU: g(1)}, world.QueueOpt{Name: "qc", Parent: "d2", GPU: g(1)}),
+		mk("multi-d1q2(qa1,qb1)-d2q2(qc2)", world.QueueOpt{Name: "d1", GPU: g(2)}, world.QueueOpt{Name: "d2", GPU: g(2)},
+			world.QueueOpt{Name: "qa", Parent: "d1", GPU: g(1)}, world.QueueOpt{Name: "qb", Parent: "d1", GPU: g(1)}, world.QueueOpt{Name: "qc", Parent: "d2", GPU: g(2)}),
+		mk("multi-3lvl-org(d1q2(qa1,qb1),d2q1(qc1))", world.QueueOpt{Name: "org", GPU: g(-1)}, world.QueueOpt{Name: "d1", Parent: "org", GPU: g(2)}, world.QueueOpt{Name: "d2", Parent: "org", GPU: g(1)},
+			world.QueueOpt{Name: "qa", Parent: "d1", GPU: g(1)}, world.QueueOpt{Name: "qb", Parent: "d1", GPU: g(1)}, world.QueueOpt{Name: "qc", Parent: "d2", GPU: g(1)}),
+	}
+	lay := []nodeLayout{
+		{"1n-2gpu", []world.NodeOpt{{Name: "n1", CPU: "16", Mem: "32Gi", GPUs: 2, GPUMemMiB: 40000}}},
+		{"1n-3gpu", []world.NodeOpt{{Name: "n1", CPU: "16", Mem: "32Gi", GPUs: 3, GPUMemMiB: 40000}}},
+		{"1n-4gpu", []world.NodeOpt{{Name: "n1", CPU: "16", Mem: "32Gi", GPUs: 4, GPUMemMiB: 40000}}},
+	}
+	kMax := 5
+	if tier == "thorough" {
+		kMax = 6
+	}
+	return wlScenariosRange(menu, lay, qsets, []schedrun.Config{{}, {SaturationMultiplier: "1.5"}}, 4, kMax)
+}
+
 func C07() *clustermc.Family {
 	return &clustermc.Family{
 		Property: "C07",
@@ -109,7 +151,7 @@ func C07() *clustermc.Family {
 				{"2n-3+1gpu", []world.NodeOpt{{Name: "n1", CPU: "16", Mem: "32Gi", GPUs: 3, GPUMemMiB: 40000}, {Name: "n2", CPU: "16", Mem: "32Gi", GPUs: 1, GPUMemMiB: 40000}}},
 			}
 			cfgs := []schedrun.Config{{}, {SaturationMultiplier: "1.5", ConsolidatingReclaim: true}}
-			return append(wlScenarios(tier, reclaimMenu(), lay, reclaimQueues(), cfgs, 3, 4), crossDeptScenarios(tier)...)
+			return append(append(wlScenarios(tier, reclaimMenu(), lay, reclaimQueues(), cfgs, 3, 4), crossDeptScenarios(tier)...), multiReclaimerScenarios(tier)...)
 		},
 		Depth: func(tier string) int {
 			if tier == "thorough" {
